@@ -8,9 +8,13 @@ def retained_bond_indices(s, tol):
     """
     Indices of retained singular values based on given tolerance.
     """
-    w = np.linalg.norm(s)
-    if w == 0:
+    # rescale by a power of two (exact) such that the largest entry is of order one,
+    # to avoid overflow or underflow of the squares
+    smax = np.max(np.abs(s)) if len(s) > 0 else 0
+    if smax == 0:
         return np.array([], dtype=int)
+    s = np.ldexp(s, -np.frexp(smax)[1])
+    w = np.linalg.norm(s)
 
     # normalized squares
     s = (s / w)**2
